@@ -159,14 +159,14 @@ theorem row_injective_values (fs : List (FTy × SortOptions)) (r1 r2 : List FVal
 
 /-! ### nested types
 
-`Struct`, `List` kinds, `FixedSizeList`, `Dictionary`, `RunEndEncoded`, `Null` of any nesting
-depth.  `cmpN` (Model.lean) is the logical order: nulls first/last by `nulls_first`; struct
+`Struct`, `List` kinds, `Map`, `FixedSizeList`, `Dictionary`, `RunEndEncoded`, `Null` of any
+nesting depth.  `cmpN` (Model.lean) is the logical order: nulls first/last by `nulls_first`; struct
 children lexicographically under the struct's options; list elements lexicographically, a
 proper prefix first, elements compared under the child options
 `{descending: false, nulls_first: nulls_first != descending}` and the whole reversed when
 descending (which is how element nulls end up where `nulls_first` says); fixed-size lists
-element-wise; dictionary and run-end values as their plain values.  `Map` and `Union` are
-excluded (`unionFree`): the Union encoding does *not* preserve order under `descending`
+element-wise; maps like lists of (key, value) entries; dictionary and run-end values as their
+plain values.  `Union` is excluded (`unionFree`): the Union encoding does *not* preserve order under `descending`
 (known finding), so no such theorem exists for it. -/
 
 /-- **List step** (`list::encode_one`): with non-empty element rows, the list encoding
@@ -191,7 +191,8 @@ theorem nested_order (t : Ty) (o : SortOptions) (a b : Val) (hu : unionFree t = 
     (encode o t a <+: encode o t b → encode o t a = encode o t b) :=
   ⟨compareBytes_of_cmpStrict (encode_cmpN t o a b hu ha hb), eq_of_prefix_of_cmpStrict (encode_cmpN t o a b hu ha hb)⟩
 
-example : unionFree (.list (.struct [.leaf (.int true 4), .ree (.leaf .bin)])) = true ∧
+example : unionFree (.map (.leaf .bin) (.leaf .bool)) = true ∧
+    unionFree (.list (.struct [.leaf (.int true 4), .ree (.leaf .bin)])) = true ∧
     conforms (.list (.struct [.leaf (.int true 4), .ree (.leaf .bin)]))
       (.list [.tuple [.int (-7), .bytes [0, 255]], .null, .tuple [.null, .null]]) = true := by decide
 
